@@ -84,6 +84,8 @@ def gen(w, rng):
         st["sel"] = {d: _gen_one(rng, fm.dims[d]["labels"], pos, False) for d in dims}
     else:
         st["idx"] = _gen_idx(rng, fm, v, pos, allow_absent=False)
+    if form == "ds_read":
+        st["ds_via"] = rng.choice(["read_names", "read_names", "read_all", "read_nc_all", "sel_all"])
     if form in ("read", "read_nc"):
         if rng.random() < 0.2 and not pos:
             st["tol"] = rng.choice([0.3, 1.0, 5])
@@ -217,9 +219,20 @@ def x_disk_index(w, s):
     if form == "read_nc":
         got = _guard(lambda: w.da.read_nc(path, name, indices=index, indexing=indexing, **kw))
     elif form == "ds_read":
+        via = s.get("ds_via", "read_names")
+        if via != "read_names" and sorted(names) != sorted(fm.vars):
+            via = "read_names"      # reading "everything" is compared only when everything in the file is known
+
         def run():
+            if via == "read_nc_all":
+                return w.da.read_nc(path, indices=dict(index), indexing=indexing)
             with w.da.open_nc(path) as h:
+                if via == "read_all":
+                    return h.read(indices=dict(index), indexing=indexing)
+                if via == "sel_all":
+                    return (h.isel if pos else h.sel)(**dict(index))
                 return h.read(names, indices=dict(index), indexing=indexing)
+        w.count("c20:ds_read_" + via)
         got = _guard(run)
     else:
         def run():
